@@ -1001,6 +1001,114 @@ theorem copied_ring_preserved_and_reported (c : CryptoOps) (hi : HashInj c) (sig
   rw_open_tampered_fails_and_preserves c sigKey time b bob d .signature hstored
     (tampered_or_copied_ring_does_not_load c hi sigKey bob alice raw d p hparse hsigs (Or.inl (by rw [hraw])) (Or.inr hne))
 
+/-- **Modes on the creation path of a ring.** In the directory back end the only creating calls of `Put`
+are `MkdirAll(…, keyDirPerm)` for the ring's directories and `OpenFile(O_CREATE|O_EXCL, keyFilePerm)` for the
+file – this is how `<ring>.keyring.new` comes into being – and `Rename` / `RenameNX` contain no creating or
+mode-changing call (the ring file IS the temporary, renamed: it never passes through another mode). Under
+every umask the temporary, hence the ring file, and the directories have no group / other bit. (Regenerated
+call table; the kernel's `perm & ~umask` is the POSIX contract, checked by the stream `rwopen-modes`.) -/
+theorem rw_open_created_file_modes :
+    ((Generated.KeyPerms.permCalls.filter fun r => r.2.1 == "DirectoryBackend.Put").map fun r => (r.2.2.1, r.2.2.2)) =
+      [("os.MkdirAll", "keyDirPerm"), ("os.OpenFile", "keyFilePerm")] ∧
+    (Generated.KeyPerms.permCalls.filter fun r => r.2.1 == "DirectoryBackend.Rename" || r.2.1 == "DirectoryBackend.RenameNX" ||
+      r.2.1 == "DirectoryBackend.doRenameNX") = [] ∧
+    (∀ umask, Perms.ownerOnly (Perms.effectiveAt .v2File umask) = true ∧ Perms.ownerOnly (Perms.effectiveAt .v2Dir umask) = true) := by
+  refine ⟨by decide, by decide, fun umask => ⟨Perms.created_ownerOnly _ _ (by decide), Perms.created_ownerOnly _ _ (by decide)⟩⟩
+
+/-- What the adversary can put into the signature fields of a file: anything but a fresh valid MAC.
+Whenever a signature value in `sigs` IS the HMAC, under the key store's signature key, of some
+`context ‖ ": " ‖ data`, it is one the key store itself made – for one of the (ring path, payload) pairs of
+`honest`. (Unforgeability of the HMAC, as a hypothesis about the file.) -/
+def NoForgery (c : CryptoOps) (sigKey : Bytes) (honest : List (Bytes × Bytes)) (sigs : List Notary.Sig) : Prop :=
+  ∀ s ∈ sigs, ∀ ctx x, s.sig = Notary.signBytes c sigKey ctx x →
+    ∃ h ∈ honest, s.sig = Notary.signBytes c sigKey (sigCtx h.1) h.2
+
+/-- **What a ring file that loads can contain** (tamper evidence of the *content*, whatever is done to the
+file as a whole – any number of changed, inserted or appended bytes, any DER framing Go's reader accepts).
+If the bytes stored at ring path `path` parse and load, and the adversary could not forge a MAC
+(`NoForgery`), then the data element handed to the key ring is the one inside the payload found in the file,
+and that payload – every byte of it: content type, version, time stamp, purpose, all keys with their states,
+validity and sealed key data, the current-key marker – was signed by the key store itself; it is, byte for
+byte, a payload the key store signed **for this very path** whenever the lengths agree or the paths do (the
+`context ‖ ": " ‖ payload` string is otherwise only known to agree as a whole – same caveat as `ring_tamper`).
+What is *not* pinned are bytes outside the payload that carry no ring content: `der_outside_span_counterexample`. -/
+theorem ring_file_content_tamper_evident (c : CryptoOps) (hi : HashInj c) (sigKey path d data : Bytes)
+    (honest : List (Bytes × Bytes)) (p : Parsed) (hparse : parseContainer d = some p)
+    (hnf : NoForgery c sigKey honest p.sigs) (hload : loadBytes c sigKey path d = .ok data) :
+    data = p.payload.data ∧
+    ∃ h ∈ honest, path ++ (ofStr ": " ++ p.raw) = h.1 ++ (ofStr ": " ++ h.2) ∧
+      ((p.raw.length = h.2.length ∨ path = h.1) → path = h.1 ∧ p.raw = h.2) := by
+  unfold loadBytes at hload
+  simp only [hparse] at hload
+  cases hv : verifySignatures c sigKey (sigCtx path) p.container with
+  | error e => simp [hv] at hload
+  | ok u =>
+    simp only [hv] at hload
+    have hdata : data = p.payload.data := by
+      split at hload
+      · cases hload
+      · split at hload
+        · cases hload
+        · cases hload; rfl
+    refine ⟨hdata, ?_⟩
+    have hver := (verifySignatures_ok_iff c sigKey (sigCtx path) p.container).mp hv
+    obtain ⟨⟨s, hs, hoid⟩, hall⟩ := ring_signature_needed c sigKey (sigCtx path) p.raw p.sigs hver
+    have hsig := hall s hs hoid
+    obtain ⟨h, hh, heq⟩ := hnf s hs _ _ hsig
+    rw [hsig] at heq
+    have h2 := (hi.hmac_inj _ _ _ _ heq).2
+    simp only [sigCtx, ksCtx, List.append_assoc] at h2
+    have h3 := List.append_cancel_left (List.append_cancel_left h2)
+    refine ⟨h, hh, h3, ?_⟩
+    intro hlen
+    rcases hlen with hl | hp
+    · have hlen2 : (ofStr ": " ++ p.raw).length = (ofStr ": " ++ h.2).length := by simp [hl]
+      have hp : path = h.1 := by
+        have := congrArg List.length h3
+        simp only [List.length_append] at this
+        have hpl : path.length = h.1.length := by omega
+        exact (List.append_inj h3 hpl).1
+      rw [hp] at h3
+      exact ⟨hp, List.append_cancel_left (List.append_cancel_left h3)⟩
+    · rw [hp] at h3
+      exact ⟨hp, List.append_cancel_left (List.append_cancel_left h3)⟩
+
+/-- a minimal payload: `SEQUENCE { INTEGER 1 (key ring), INTEGER 2 (version), UTCTime, NULL }` -/
+def demoRaw : Bytes := [0x30, 0x0b, 0x02, 0x01, 0x01, 0x02, 0x01, 0x02, 0x17, 0x01, 0x5a, 0x05, 0x00]
+def demoSig : Notary.Sig := ⟨Notary.sha256OID, Notary.signBytes boxOps [7] (sigCtx (ofStr "p")) demoRaw⟩
+def demoSigEl (extra : Bytes) : Bytes := Der.tlv 0x30 (Der.derOID demoSig.oid ++ Der.derOctets demoSig.sig ++ extra)
+def demoFile (sigEls : List Bytes) (tail : Bytes) : Bytes := Der.tlv 0x30 (demoRaw ++ Der.tlv 0x31 sigEls.flatten ++ tail)
+
+set_option maxRecDepth 20000 in
+/-- **The ring file is malleable outside the signed span – in bytes that carry no content** (recorded, not
+a finding: the property quantifies over single-byte modifications, all of which are refused – enumeration
+`tamper` – and the key ring a reader gets is unaffected, `ring_file_content_tamper_evident`). Go's
+`encoding/asn1` ignores bytes after the last field of a `SEQUENCE` it reads into a struct, and the notary skips
+signatures of unknown algorithms "for future compatibility". For an honestly signed container (first line:
+the demo file IS `derContainer (sign …)`, and it loads), these modified files load as well, with the same
+data: two bytes appended inside the outer `SEQUENCE` after the signature set; two bytes appended inside the
+signature element; a second signature of an unknown algorithm after / before the real one. The same file at
+another path fails with a signature error; with only an unknown-algorithm signature it fails with "no
+signature". Replayed against the real reader by the stream `malleable` (ops `C07.roopen` / `C07.rwopen`). -/
+theorem der_outside_span_counterexample :
+    demoFile [demoSigEl []] [] = Der.derContainer (Notary.sign boxOps [7] (sigCtx (ofStr "p")) demoRaw) ∧
+    loadBytes boxOps [7] (ofStr "p") (demoFile [demoSigEl []] []) = .ok [5, 0] ∧
+    loadBytes boxOps [7] (ofStr "p") (demoFile [demoSigEl []] [0xde, 0xad]) = .ok [5, 0] ∧
+    loadBytes boxOps [7] (ofStr "p") (demoFile [demoSigEl [5, 0]] []) = .ok [5, 0] ∧
+    loadBytes boxOps [7] (ofStr "p") (demoFile [demoSigEl [], Der.derSig [1, 2, 3] [9]] []) = .ok [5, 0] ∧
+    loadBytes boxOps [7] (ofStr "p") (demoFile [Der.derSig [1, 2, 3] [9], demoSigEl []] []) = .ok [5, 0] ∧
+    loadBytes boxOps [7] (ofStr "q") (demoFile [demoSigEl []] []) = .error .signature ∧
+    loadBytes boxOps [7] (ofStr "p") (demoFile [Der.derSig [1, 2, 3] [9]] []) = .error .noSignature := by
+  refine ⟨by decide, by decide, by decide, by decide, by decide, by decide, by decide, by decide⟩
+
+
+/-- `NoForgery` is satisfiable by a file that carries the honest signature (non-vacuity) -/
+example : NoForgery boxOps [7] [(ofStr "p", demoRaw)] [demoSig] := by
+  intro s hs ctx x _
+  refine ⟨(ofStr "p", demoRaw), List.mem_singleton.mpr rfl, ?_⟩
+  rw [List.mem_singleton.mp hs]
+  rfl
+
 /-! non-vacuity: a back end whose ring file was replaced by garbage, opened under the Box instance -/
 
 /-- a back end with `<path>.keyring ↦ d` and nothing else -/
